@@ -42,6 +42,8 @@ def queries(tier, seed, build):
             if place == "mono":
                 defs.append("TWO_RUN")
             defs.append("PREFIX_NULL" if prefix is None else "PREFIX_STR=" + cstr(prefix))
+            if nrb:
+                defs.append("EXPECT_NRB=%d" % nrb)   # hashes.conf column 3, transcribed in props/common.py
             if name == "unknown":
                 defs.append("EXPECT_NO_SUCCESS")
             if place == "end" and name in LONG:
